@@ -83,6 +83,8 @@ type Variant struct {
 	Tags    string
 	Race    bool
 	Overlay string // path to overlay.json ("" = none)
+	Go      string // go command ("" = go)
+	TestBin bool   // build a test binary (go test -c): the stall world needs testing/synctest
 }
 
 // Build builds (once) the binary for a variant from the current tree.
@@ -100,6 +102,9 @@ func (e *Env) Build(v Variant) (string, error) {
 	}
 	out := filepath.Join(e.WorkDir, "bin", filepath.Base(v.Pkg)+"-"+v.Name)
 	args := []string{"build", "-modfile=" + mf, "-tags", v.Tags, "-o", out}
+	if v.TestBin {
+		args = []string{"test", "-c", "-modfile=" + mf, "-tags", v.Tags, "-o", out}
+	}
 	if v.Race {
 		args = append(args, "-race")
 	}
@@ -108,7 +113,11 @@ func (e *Env) Build(v Variant) (string, error) {
 	}
 	args = append(args, v.Pkg)
 	t0 := time.Now()
-	cmd := exec.Command("go", args...)
+	gocmd := "go"
+	if v.Go != "" {
+		gocmd = v.Go
+	}
+	cmd := exec.Command(gocmd, args...)
 	cmd.Dir = e.VerifDir
 	cmd.Env = goEnv()
 	var buf bytes.Buffer
